@@ -115,8 +115,8 @@ CHECKS = {
         text="For 7 API variants x {object cache, user file} x {SerialPool + real kernel, modelled pool + stub with pickling}, every call event "
              "inside thejoker's code (about 7.4k executions quick) fails once; the injected exception itself (or an explicit translation of it) must be what the caller sees, no temporary HDF5 may remain, "
              "the user's file keeps its sha256/mtime and a follow-up call on the same TheJoker returns the reference values. A real MultiPool(2) "
-             "slice covers process workers. This is the literal quantifier of the property (every call, k-th invocation).",
-        note="Faults are exceptions at call boundaries in Python code; SIGKILL / faults inside C calls are outside the model. The cleanup's own unlink is excluded from the leak oracle.",
+             "slice covers process workers, and a second slice lets batch reads fail inside MultiPool workers with exception classes that are awkward to ship between processes (run in a child interpreter under a watchdog: a hang of pool.map is the violation). Descriptors still open on a (deleted) cache file count as a file left behind. This is the literal quantifier of the property (every call, k-th invocation).",
+        note="Faults are exceptions at call boundaries in Python code; SIGKILL / faults inside C calls are outside the model. The cleanup's own unlink / close is excluded from the leak oracle. A deliberate translation of the failure by an explicit raise statement of thejoker (with or without `from`) counts as the failure reaching the caller; an unrelated error raised by a clean-up call does not.",
     ),
     "C01": dict(
         engine=E1, category="exploration", design="§4 C01",
